@@ -50,3 +50,23 @@ Theorem C06_unreadable_commit_is_inert : forall now c ver stag rtag flag aux rnd
   c' = c <| c_injections := [] |>.
 Proof. exact unreadable_commit_is_inert. Qed.
 Print Assumptions C06_unreadable_commit_is_inert.
+
+(* an encoded message of another protocol version than the one the conversation is committed to (any type, any body) *)
+From OTR Require Import Proto.Inert.
+Theorem C06_wrong_version_is_inert : forall now c ver stag rtag body aux rnd,
+  isOTREnabled (c_policies c) = true -> c_version c <> 0 -> ver <> c_version c ->
+  let '(c', r) := step now c (CReceive (WEnc ver stag rtag body) aux rnd) in
+  r_plain r = None /\ r_out r = c_injections c /\ r_err r = 1 /\ r_events r = [] /\
+  c' = c <| c_injections := [] |>.
+Proof. exact wrong_version_is_inert. Qed.
+Print Assumptions C06_wrong_version_is_inert.
+
+(* a D-H Key message with an out-of-range value, while it is awaited or after it was accepted *)
+Theorem C06_out_of_range_dhkey_is_inert : forall now c ver stag rtag gy aux rnd a,
+  isOTREnabled (c_policies c) = true -> header_ok c ver stag rtag ->
+  c_ake c = Some a -> (a_state a = 1 \/ a_state a = 3) -> isGroupElement gy = false ->
+  let '(c', r) := step now c (CReceive (WEnc ver stag rtag (EAke (BKey gy))) aux rnd) in
+  r_plain r = None /\ r_out r = c_injections c /\ r_err r = 1 /\ r_events r = [c_MessageEventSetupError] /\
+  c' = c <| c_injections := [] |>.
+Proof. exact out_of_range_dhkey_is_inert. Qed.
+Print Assumptions C06_out_of_range_dhkey_is_inert.
